@@ -16,6 +16,7 @@
     attr_tab_lf_cr_not_recovered text_cr_not_recovered decl_encoding_echoed
     parser_keeps_cdata_seam xml_roundtrip_adjacent_cdata merged_cdata_seam_not_wellformed
     parse_source_agrees empty_text_child_not_idempotent et_stream_builder_shaped
+    ser_idempotent_builder_source ser_idempotent_parsed_text_source
 -/
 import Genshi.Lemmas.XmlRefs
 import Genshi.Lemmas.XmlFlatD
@@ -294,9 +295,14 @@ theorem ser_idempotent_builder_events (pref : List (Str × Str)) (hpref : prefOK
     gives `out` again:  `ser (parse (encode (ser s))) = ser s`.
 
     `parseText` is the specification-side account of `XMLParser` +
-    `EmptyTagFilter`; it is compared with the real parser on every serializer
-    output by the correspondence stream `reparse` (not derived from a model of
-    expat). -/
+    `EmptyTagFilter` for texts in which no start tag is directly followed by an
+    end tag (`parse_source_agrees`); the real chain reads `<a></a>` as EMPTY
+    (`parseSource`, compared with the real parser on every serializer output
+    and on source documents by the streams `reparse` / `reparse-source`; not
+    derived from a model of expat).  The statement about the real chain is
+    `ser_idempotent_builder_source` below, with the side condition that no
+    element's content is empty TEXT only; `empty_text_child_not_idempotent` is
+    the witness that the side condition cannot be dropped. -/
 theorem ser_idempotent_builder (pref : List (Str × Str)) (hpref : prefOK pref = true)
     (rep : Char → Bool) (hr : AsciiRep rep) (s : Stream)
     (h : docOK (emptyTag s) = true) (hb : builderShaped (emptyTag s) = true)
@@ -650,5 +656,58 @@ example :
          .text ['w'] false, .end_ ⟨['u'], ['a']⟩] ∧
     docOK (emptyTag s) = true ∧ inputTextOKm (inRanges [(0, 127)]) defaultPref (emptyTag s) = true := by
   refine ⟨by decide, by decide, by decide⟩
+
+/-- **ser_idempotent for builder streams through the real parser chain**
+    (`parseSource`: `<a></a>` is read as EMPTY, as expat + `EmptyTagFilter` do).
+    Same hypotheses as `ser_idempotent_builder` plus the decidable side
+    condition `noStartEndX (mergeX (emptyTag s))`: once adjacent TEXT events are
+    merged and empty ones dropped, no START is followed by its END with nothing
+    between them — i.e. no element's content consists of empty TEXT events only
+    (an element without children is EMPTY after `EmptyTagFilter` and is fine).
+    Then `ser (parseSource (encode (ser s))) = ser s`.  The side condition
+    cannot be dropped: `empty_text_child_not_idempotent`. -/
+theorem ser_idempotent_builder_source (pref : List (Str × Str)) (hpref : prefOK pref = true)
+    (rep : Char → Bool) (hr : AsciiRep rep) (s : Stream)
+    (h : docOK (emptyTag s) = true) (hb : builderShaped (emptyTag s) = true)
+    (ht : inputTextOKm rep pref (emptyTag s) = true)
+    (hne : noStartEndX (mergeX (emptyTag s)) = true) :
+    ∃ out, serRun SerSt.init (flatten pref (emptyTag s)) = some out ∧
+      ∃ xs2, parseSource (encodeText rep out) = some xs2 ∧
+        serRun SerSt.init (flatten pref xs2) = some out :=
+  idem_text_builder_source pref hpref rep hr _ h hb ht hne
+
+/-- **… and for parser-shaped streams** (`idemOK`, `inputTextOK`): the same
+    conclusion with `parseSource`, side condition `noStartEndX (emptyTag s)`
+    (START and END with nothing but namespace events between them do not
+    occur; `EmptyTagFilter` guarantees it for what it is given by a parser,
+    where TEXT events are never empty). -/
+theorem ser_idempotent_parsed_text_source (pref : List (Str × Str)) (hpref : prefOK pref = true)
+    (rep : Char → Bool) (hr : AsciiRep rep) (s : Stream)
+    (h : docOK (emptyTag s) = true) (hi : idemOK pref (emptyTag s) = true)
+    (ht : inputTextOK rep pref (emptyTag s) = true)
+    (hne : noStartEndX (emptyTag s) = true) :
+    ∃ out, serRun SerSt.init (flatten pref (emptyTag s)) = some out ∧
+      ∃ xs2, parseSource (encodeText rep out) = some xs2 ∧
+        serRun SerSt.init (flatten pref xs2) = some out :=
+  idem_text_parsed_source pref hpref rep hr _ h hi ht hne
+
+/-- the builder tree of the example above (two namespaces, made-up prefixes, `xmlns=""`, adjacent and empty
+    strings beside real ones) satisfies the side condition; `tag.a('')` does not -/
+example :
+    let s : Stream :=
+      [.start ⟨['u'], ['a']⟩ [(⟨['v'], ['x']⟩, ['1']), (⟨['u'], ['y']⟩, ['2'])],
+       .text ['t'] false, .text [] false, .text ['&'] false,
+       .start ⟨[], ['d']⟩ [], .start ⟨['u'], ['e']⟩ [(⟨['v'], ['z']⟩, ['3'])], .end_ ⟨['u'], ['e']⟩, .end_ ⟨[], ['d']⟩,
+       .end_ ⟨['u'], ['a']⟩]
+    docOK (emptyTag s) = true ∧ builderShaped (emptyTag s) = true ∧
+    inputTextOKm (inRanges [(0, 127)]) defaultPref (emptyTag s) = true ∧
+    noStartEndX (mergeX (emptyTag s)) = true ∧
+    noStartEndX (mergeX (emptyTag [.start ⟨[], ['a']⟩ [], .text [] false, .end_ ⟨[], ['a']⟩])) = false := by
+  refine ⟨by decide, by decide, by decide, by decide, by decide⟩
+
+/-- a parsed document with declarations (namespace events between the tags) satisfies it -/
+example : noStartEndX (emptyTag
+    [.startNs [] ['u'], .start ⟨['u'], ['a']⟩ [], .startNs ['q'] ['v'], .start ⟨['v'], ['b']⟩ [], .end_ ⟨['v'], ['b']⟩,
+     .endNs ['q'], .text ['t'] false, .end_ ⟨['u'], ['a']⟩, .endNs []]) = true := by decide
 
 end Genshi.Props.C02
